@@ -143,8 +143,10 @@ func c19(c *Ctx) {
 				d := "?"
 				if cf != nil && cf.Name() == "NewWithAttributes" && len(call.Args) == 2 {
 					d = exprStr(call.Args[0])
-					// judged by value: the schema URL argument folds, under the row's facts, to a's or b's URL
-					if v, known := evalConst(info, call.Args[0], g.withLocals(env)); known && v.Kind() == constant.String {
+					// judged by value: the schema URL argument folds, under the row's facts, to a's or b's URL (a variable assigned on
+					// several paths is resolved to the assignment that reaches this return)
+					arg0 := g.ResolveUnder(env, seen, call.Args[0], x)
+					if v, known := evalConst(info, arg0, g.withLocals(env)); known && v.Kind() == constant.String {
 						switch constant.StringVal(v) {
 						case row.a:
 							d = pa.Name() + ".schemaURL"
@@ -164,11 +166,32 @@ func c19(c *Ctx) {
 				if !call.Ellipsis.IsValid() || combineVar == nil || !sameVar(info, call.Args[len(call.Args)-1], combineVar) {
 					full = false
 				}
-				hasErr := !isNilIdent(info, rs.Results[1])
+				errRes := g.ResolveUnder(env, seen, rs.Results[1], x)
+				hasErr := !isNilIdent(info, errRes)
+				if v, isV := objOf(info, errRes).(*types.Var); isV && hasErr {
+					// `var err error` never assigned on this path: nil
+					assigned := false
+					for y := range seen {
+						if as, isAs := y.N.(*ast.AssignStmt); isAs {
+							for _, l := range as.Lhs {
+								if objOf(info, l) == types.Object(v) {
+									assigned = true
+								}
+							}
+						}
+					}
+					if !assigned {
+						hasErr = false
+					}
+				}
+				if hasErr && d == "="+quote("") {
+					// an empty schema URL together with the error is the schemaless result
+					d = "schemaless"
+				}
 				if hasErr {
 					d += "+err"
-					if !strings.Contains(exprStr(rs.Results[1]), "ErrSchemaURLConflict") {
-						ec, isCall := unparen(rs.Results[1]).(*ast.CallExpr)
+					if !strings.Contains(exprStr(errRes), "ErrSchemaURLConflict") {
+						ec, isCall := unparen(errRes).(*ast.CallExpr)
 						okWrap := false
 						if isCall {
 							for _, a := range ec.Args {
@@ -218,7 +241,7 @@ func c19(c *Ctx) {
 			if cf.Name() == "NewSchemaless" && strings.Contains(exprStr(call), "ServiceName") {
 				svc = objOf(info, as.Lhs[0])
 			}
-			if cf.Name() == "constructOTResources" {
+			if parser := rx.Func("constructOTResources"); parser != nil && callToDecl(info, parser)(call) {
 				attrs = objOf(info, as.Lhs[0])
 			}
 			return true
@@ -326,19 +349,57 @@ func c19(c *Ctx) {
 	}
 	if fn := c.Fn(rx, "R3", "NewSchemaless"); fn != nil {
 		good := false
-		for _, f := range rx.All {
-			if rx.Outer(f) != fn || f.Lit == nil {
-				continue
-			}
-			inspectNoLit(f.Body(), func(n ast.Node) bool {
-				if rs, ok := n.(*ast.ReturnStmt); ok && len(rs.Results) == 1 {
-					if call, ok := unparen(rs.Results[0]).(*ast.CallExpr); ok && isCallTo(info, call, "(go.opentelemetry.io/otel/attribute.KeyValue).Valid") {
-						good = true
+		const validM = "(go.opentelemetry.io/otel/attribute.KeyValue).Valid"
+		// the filter handed to the set constructor is KeyValue.Valid itself (method expression) or a function whose every
+		// result is a conjunction containing kv.Valid()
+		filterOK := func(body *ast.BlockStmt) bool {
+			ok, n := true, 0
+			inspectNoLit(body, func(nd ast.Node) bool {
+				if rs, isR := nd.(*ast.ReturnStmt); isR && len(rs.Results) == 1 {
+					n++
+					has := false
+					for _, cj := range conjuncts(rs.Results[0]) {
+						if call, isC := unparen(cj).(*ast.CallExpr); isC && isCallTo(info, call, validM) {
+							has = true
+						}
+					}
+					if !has {
+						ok = false
 					}
 				}
 				return true
 			})
+			return ok && n > 0
 		}
+		inspectNoLit(fn.Body(), func(n ast.Node) bool {
+			call, isC := n.(*ast.CallExpr)
+			if !isC || !isCallTo(info, call, "go.opentelemetry.io/otel/attribute.NewSetWithFiltered") || len(call.Args) != 2 {
+				return true
+			}
+			switch a := unparen(call.Args[1]).(type) {
+			case *ast.FuncLit:
+				good = filterOK(a.Body)
+			case *ast.SelectorExpr:
+				if sel := info.Selections[a]; sel != nil && sel.Kind() == types.MethodExpr && sel.Obj().(*types.Func).FullName() == validM {
+					good = true
+				} else if f, isF := objOf(info, a).(*types.Func); isF {
+					if d := declOf(f); d != nil && d.Body() != nil {
+						good = filterOK(d.Body())
+					}
+				}
+			case *ast.Ident:
+				if f, isF := objOf(info, a).(*types.Func); isF {
+					if d := declOf(f); d != nil && d.Body() != nil {
+						good = filterOK(d.Body())
+					}
+				} else if v, isV := objOf(info, a).(*types.Var); isV {
+					if def := localFuncLit(fn.Body(), info, v); def != nil {
+						good = filterOK(def.Body)
+					}
+				}
+			}
+			return true
+		})
 		c.Check(good, "R3", "sdk/resource|NewSchemaless|filter keeps kv.Valid() only", at(rx.M, fn.Pos()), "invalid keys never enter a resource", "resources can hold attributes with empty keys / invalid values")
 	}
 
@@ -357,14 +418,64 @@ func c19(c *Ctx) {
 		c.Check(good, "R4", "sdk/resource|(*Resource).Equivalent|← Set().Equivalent()", at(rx.M, fn.Pos()), "map identity is the attribute set's", "resource identity no longer derives from the attribute set")
 	}
 	if fn := c.Fn(rx, "R4", "(*Resource).Equal"); fn != nil {
-		src := ""
+		src, good, nret := "", true, 0
+		params := fn.ParamObjs(info)
+		// which of the two resources (receiver, argument) an expression is derived from
+		side := func(e ast.Expr) types.Object {
+			var got types.Object
+			ast.Inspect(e, func(n ast.Node) bool {
+				if id, isID := n.(*ast.Ident); isID {
+					for _, p := range params {
+						if info.Uses[id] == p {
+							got = p
+						}
+					}
+				}
+				return true
+			})
+			return got
+		}
+		identityOf := func(e ast.Expr) types.Object {
+			if call, isC := unparen(e).(*ast.CallExpr); isC && len(call.Args) == 0 {
+				if se, isS := call.Fun.(*ast.SelectorExpr); isS && se.Sel.Name == "Equivalent" {
+					return side(se.X)
+				}
+			}
+			return nil
+		}
 		inspectNoLit(fn.Body(), func(n ast.Node) bool {
-			if rs, ok := n.(*ast.ReturnStmt); ok && len(rs.Results) == 1 {
-				src = exprStr(rs.Results[0])
+			rs, isR := n.(*ast.ReturnStmt)
+			if !isR || len(rs.Results) != 1 {
+				return true
+			}
+			nret++
+			src = exprStr(rs.Results[0])
+			okRet := false
+			switch e := unparen(rs.Results[0]).(type) {
+			case *ast.BinaryExpr:
+				if e.Op == token.EQL {
+					l, r := identityOf(e.X), identityOf(e.Y)
+					okRet = l != nil && r != nil && l != r
+				}
+			case *ast.CallExpr:
+				// a.Set().Equals(b.Set()): the attribute set's own identity comparison
+				if isCallTo(info, e, "(*go.opentelemetry.io/otel/attribute.Set).Equals") && len(e.Args) == 1 {
+					if se, isS := e.Fun.(*ast.SelectorExpr); isS {
+						l, r := side(se.X), side(e.Args[0])
+						isSet := func(x ast.Expr) bool {
+							call, isC := unparen(x).(*ast.CallExpr)
+							return isC && isCallTo(info, call, "(*go.opentelemetry.io/otel/sdk/resource.Resource).Set")
+						}
+						okRet = l != nil && r != nil && l != r && isSet(se.X) && isSet(e.Args[0])
+					}
+				}
+			}
+			if !okRet {
+				good = false
 			}
 			return true
 		})
-		c.Check(strings.Contains(src, "Equivalent()"), "R4", "sdk/resource|(*Resource).Equal|compares Equivalent() of both sides", at(rx.M, fn.Pos()), src, "Equal no longer compares canonical identities")
+		c.Check(good && nret > 0, "R4", "sdk/resource|(*Resource).Equal|compares Equivalent() of both sides", at(rx.M, fn.Pos()), src, "Equal no longer compares canonical identities")
 	}
 }
 
